@@ -433,6 +433,158 @@ def run(ctx):
             t.header = hb
             attack(rec, t, "multi:respell:" + label, verify_all=False)
 
+    # ------------------------------------------------------------------ key resolution (model/JweKeys.v)
+    from joserfc.jwk import KeySet
+
+    def kcase(label, ser, token, keysrc, sender, expect_pt, verify_all=True):
+        """expect_pt: plaintext that must come back, or None = must be rejected"""
+        obs, (klog, nondet) = J.do_decrypt_k(J.dec_ser(ser), token, keysrc, sender=sender, verify_all=verify_all)
+        ctx.note_case(("keys", label, ser))
+        bump("keys-" + label.split(":")[0])
+        rp = {"ser": ser, "token": token, "label": label, "expect": "reject" if expect_pt is None else expect_pt.hex(),
+              "keysrc": repr(keysrc)[:300]}
+        if expect_pt is None and obs[0] == "ok":
+            ctx.violation({"kind": "key-resolution-accepts", "case": label.split(":")[0], "ser": ser},
+                          "decrypt returned plaintext although the key named by the header must not be usable (%s)" % label, rp)
+        if expect_pt is not None and (obs[0] != "ok" or obs[1] != expect_pt):
+            ctx.violation({"kind": "key-resolution-rejects", "case": label.split(":")[0], "ser": ser},
+                          "decrypt with the key named by the merged header failed (%s): %s" % (label, obs[1] if obs[0] == "err" else "other plaintext"), rp)
+        if not nondet and J.table_chars(klog) < 40000:
+            cases.append(J.case_dec_k(J.dec_ser(ser), token, keysrc, sender, verify_all, obs, klog))
+            meta.append(("keys", label))
+        return obs
+
+    kalgs = [("A128KW", "A128GCM", "P-256"), ("RSA-OAEP", "A128CBC-HS256", "P-256"), ("ECDH-ES+A128KW", "A256GCM", "P-384"),
+             ("dir", "A128CBC-HS256", "P-256"), ("PBES2-HS256+A128KW", "C20P", "P-256"), ("ECDH-ES", "A128GCM", "X25519")]
+    if not ctx.quick:
+        kalgs += [(a, "A128CBC-HS256", c) for a in J.ALL_ALGS if a not in J.PU_ALGS for c in ("P-521", "X448")][::3]
+    for n, (alg, enc, crv) in enumerate(kalgs):
+        good = J.key_with(K.for_alg(alg, enc, crv), kid="right-%d" % n, use=[None, "enc"][n % 2])
+        decoy = J.key_with(K.for_alg(alg, enc, crv, "alt"), kid="decoy-%d" % n)
+        decoy2 = J.key_with(K.for_alg("A256KW", enc), kid="other-%d" % n)
+        sig_key = J.key_with(K.for_alg(alg, enc, crv), kid="sig-%d" % n, use="sig")
+        pt = b"key resolution %d" % n
+        for ser in ("compact", "flat", "general"):
+            for where in (["protected"] if ser == "compact" else ["protected", "unprotected", "recipient"]):
+                hdr = J.recipient_header(rng, alg)
+                prot, unprot, rh = {"enc": enc}, None, None
+                if ser == "compact":
+                    prot.update(hdr); prot["kid"] = good.kid
+                elif where == "protected":
+                    prot["kid"] = good.kid; rh = hdr
+                elif where == "unprotected":
+                    unprot = {"kid": good.kid}; rh = hdr
+                else:
+                    rh = dict(hdr, kid=good.kid)
+                obs, info = J.do_encrypt(ser, prot, pt, [(rh, good)], unprotected=unprot)
+                if obs[0] != "ok":
+                    ctx.violation({"kind": "encrypt-failed", "algs": alg, "enc": enc}, "encrypt with a kid failed: %s" % obs[1], {"label": alg})
+                    continue
+                tok = J.token_of(obs)
+                tag = "%s/%s/%s" % (alg, ser, where)
+                kcase("keyset-kid:" + tag, ser, tok, KeySet([decoy, good, decoy2]), None, pt)
+                kcase("keyset-kid-last:" + tag, ser, tok, KeySet([decoy2, decoy, good]), None, pt)
+                kcase("key-object:" + tag, ser, tok, good, None, pt)
+                kcase("callable-keyset:" + tag, ser, tok, [KeySet([decoy, good])], None, pt)
+                kcase("callable-key:" + tag, ser, tok, [good], None, pt)
+                kcase("keyset-without-named-key:" + tag, ser, tok, KeySet([decoy, decoy2]), None, None)
+                kcase("use-sig:" + tag, ser, tok, sig_key, None, None)
+                kcase("use-sig-in-keyset:" + tag, ser, tok, KeySet([decoy, J.key_with(sig_key, kid=good.kid)]), None, None)
+                # the kid of the MERGED header decides: a wrong kid in a higher-priority position hides the right one
+                t2 = Tok(ser, tok)
+                if ser != "compact" and where != "recipient":
+                    t2.recips[0]["header"] = dict(t2.recips[0]["header"] or {}, kid=decoy.kid)
+                    kcase("kid-overridden-by-recipient-header:" + tag, ser, t2.build(), KeySet([decoy, good, decoy2]), None, None)
+                if ser != "compact" and where == "protected":
+                    t3 = Tok(ser, tok)
+                    t3.unprotected = {"kid": decoy.kid}
+                    kcase("kid-overridden-by-unprotected:" + tag, ser, t3.build(), KeySet([decoy, good, decoy2]), None, None)
+                if ser != "compact" and where == "recipient":
+                    t4 = Tok(ser, tok)
+                    t4.unprotected = {"kid": decoy.kid}
+                    kcase("recipient-kid-wins-over-unprotected:" + tag, ser, t4.build(), KeySet([decoy, good, decoy2]), None, pt)
+        # no kid at all
+        spec = J.make_spec(K, rng, "compact", [alg], enc, crv=crv, plaintext=pt)
+        spec["recips"] = [(None, good)]
+        obs, info = J.encrypt_spec(spec)
+        if obs[0] == "ok":
+            tok = J.token_of(obs)
+            kcase("no-kid-single-key-set:" + alg, "compact", tok, KeySet([good]), None, pt)
+            kcase("no-kid-two-key-set:" + alg, "compact", tok, KeySet([good, decoy]), None, None)
+    # several recipients resolved from one KeySet / from a callable
+    for i in range(ctx.scale(4, 30)):
+        enc = rng.choice(J.CBC_ENCS)
+        algs = [rng.choice(["A128KW", "A256KW", "ECDH-ES+A128KW", "A128GCMKW", "PBES2-HS256+A128KW"]) for _ in range(2 + i % 2)]
+        gk = [J.key_with(K.for_alg(a, enc, "P-256"), kid="r%d-%d" % (i, j)) for j, a in enumerate(algs)]
+        recs = [(dict(J.recipient_header(rng, a), kid=k.kid), k) for a, k in zip(algs, gk)]
+        obs, info = J.do_encrypt("general", {"enc": enc}, b"many %d" % i, recs)
+        if obs[0] != "ok":
+            continue
+        tok = J.token_of(obs)
+        dk = J.key_with(K.for_alg("A192KW", enc), kid="zz%d" % i)
+        kcase("multi-keyset", "general", tok, KeySet([dk] + gk), None, b"many %d" % i)
+        kcase("multi-callable", "general", tok, list(gk), None, b"many %d" % i)
+        kcase("multi-keyset-one-missing:verify-all", "general", tok, KeySet([dk] + gk[1:]), None, None)
+        kcase("multi-keyset-one-missing:any", "general", tok, KeySet([dk] + gk[1:]), None, None, verify_all=False)
+    # ECDH-1PU: sender key from a KeySet by "skid", use of the sender key
+    for i, crv in enumerate(["P-256", "X25519"] if ctx.quick else J.ALL_CURVES):
+        for alg, enc in (("ECDH-1PU", "A128GCM"), ("ECDH-1PU+A128KW", "A128CBC-HS256")):
+            rk = J.key_with(K.curve_key(crv), kid="bob-%d" % i)
+            sk = J.key_with(K.curve_key(crv, "sender"), kid="alice-%d" % i)
+            sk_sig = J.key_with(K.curve_key(crv, "sender"), kid="alice-%d" % i, use="sig")
+            other = J.key_with(K.curve_key(crv, "alt"), kid="carol-%d" % i)
+            pt = b"from alice %d" % i
+            for ser in ("compact", "flat"):
+                hdr = {"alg": alg, "skid": sk.kid}
+                prot = dict({"enc": enc}, **hdr) if ser == "compact" else {"enc": enc}
+                obs, info = J.do_encrypt(ser, prot, pt, [(None if ser == "compact" else hdr, rk)], sender=sk)
+                if obs[0] != "ok":
+                    ctx.violation({"kind": "encrypt-failed", "algs": alg, "enc": enc}, "1PU encrypt with skid failed: %s" % obs[1], {"label": alg})
+                    continue
+                tok = J.token_of(obs)
+                tag = "%s/%s/%s" % (alg, crv, ser)
+                kcase("skid-keyset:" + tag, ser, tok, rk, KeySet([other, sk]), pt)
+                kcase("sender-key-object:" + tag, ser, tok, rk, sk, pt)
+                kcase("skid-not-in-keyset:" + tag, ser, tok, rk, KeySet([other]), None)
+                kcase("sender-use-sig:" + tag, ser, tok, rk, sk_sig, None)
+                kcase("sender-use-sig-in-keyset:" + tag, ser, tok, rk, KeySet([other, sk_sig]), None)
+                kcase("no-sender-key:" + tag, ser, tok, rk, None, None)
+                kcase("empty-sender-keyset:" + tag, ser, tok, rk, KeySet([]), None)
+                t5 = Tok(ser, tok)
+                if ser == "flat":
+                    t5.recips[0]["header"] = {k: v for k, v in t5.recips[0]["header"].items() if k != "skid"}
+                    kcase("no-skid-with-keyset:" + tag, ser, t5.build(), rk, KeySet([other, sk]), None)
+    # encryption side: declared use of pre-attached recipient keys and of the sender key
+    for ser in ("compact", "flat", "general"):
+        for alg, enc in (("A128KW", "A128GCM"), ("ECDH-1PU", "A128GCM")):
+            for ruse, suse in ((None, None), ("enc", "enc"), ("sig", None), (None, "sig"), ("sig", "sig")):
+                rk = J.key_with(K.for_alg(alg, enc, "P-256"), use=ruse)
+                sk = J.key_with(K.curve_key("P-256", "sender"), use=suse) if alg == "ECDH-1PU" else None
+                if sk is None and suse is not None:
+                    continue
+                hdr = {"alg": alg}
+                prot = dict({"enc": enc}, **hdr) if ser == "compact" else {"enc": enc}
+                obs, info = J.do_encrypt(ser, prot, b"use", [(None if ser == "compact" else hdr, rk)], sender=sk)
+                ctx.note_case(("keys", "encrypt-use", ser, alg, ruse, suse))
+                bump("keys-encrypt-use")
+                bad = ruse == "sig" or (sk is not None and suse == "sig")
+                if bad and obs[0] == "ok":
+                    ctx.violation({"kind": "key-use-ignored-on-encrypt", "ser": ser, "alg": alg},
+                                  "encryption accepted a key declared for use=sig (recipient use=%s, sender use=%s)" % (ruse, suse),
+                                  {"ser": ser, "alg": alg, "recipient_use": ruse, "sender_use": suse})
+                if not bad and obs[0] != "ok":
+                    ctx.violation({"kind": "encrypt-failed", "algs": alg, "enc": enc}, "encrypt failed: %s" % obs[1], {"label": alg})
+                if not info["nondet"]:
+                    cases.append(J.case_enc_k(obs, info)); meta.append(("keys", "encrypt-use:%s/%s/%s/%s" % (ser, alg, ruse, suse)))
+    # the new ECDH-1PU decrypt paths: no sender key, recipient key of another type
+    for rec in [r for r in produced if r["spec"]["algs"][0] in J.PU_ALGS and not r["label"].startswith("multi:")][:ctx.scale(6, 60)]:
+        base = Tok(rec["ser"], rec["token"])
+        attack(rec, base.clone(), "key:no-sender", sender=None)
+        attack(rec, base.clone(), "key:oct-recipient", keys=[K.oct[128]])
+        attack(rec, base.clone(), "key:rsa-recipient", keys=[K.rsa])
+        other_kind = K.curve_key("X25519" if rec["spec"]["crv"] in J.EC_CURVES else "P-256", "sender")
+        attack(rec, base.clone(), "key:sender-other-kind", sender=other_kind)
+
     ctx.coverage["input_distribution"] = dist
     ctx.coverage["rule"] = ("plaintext returned => the decoded octets (protected, ek, iv, ct, tag, aad) are those of a token that was "
                             "produced with these keys; model verdict (Ok plaintext+header | exception class) == implementation verdict "
